@@ -150,8 +150,10 @@ def run_batch(seed, batch, tier):
                 continue
 
             def fails(c, _status=status):
+                # candidates in which a trigger monitor fires are executions the check does not judge (see C01)
+                monitors.OBS.reset_case()
                 s, _, _ = compare_case(c, pg, cte, want_detail=False)
-                return s == _status
+                return s == _status and not (set(monitors.OBS.triggers) - {"sql_zero_using"})
 
             small = diff.shrink(case, fails)
             s2, d2, sql2 = compare_case(small, pg, cte)
